@@ -357,7 +357,7 @@ type Contract struct {
 
 // target is the function name without the scenario suffix (" @name").
 func (c *Contract) target() string {
-	if i := strings.Index(c.Func, " @"); i >= 0 {
+	if i := strings.Index(c.Func, "@"); i >= 0 {
 		return c.Func[:i]
 	}
 	return c.Func
@@ -511,7 +511,7 @@ func (sp *Specs) parseFile(path, pkg string) error {
 			}
 			sp.Fns[name] = &SpecFn{Name: name, Params: params, Body: n, Pos: rc.pos}
 		case "func":
-			cur = &Contract{Pkg: pkg, Func: rest, Pos: rc.pos, File: path}
+			cur = &Contract{Pkg: pkg, Func: strings.Replace(rest, " @", "@", 1), Pos: rc.pos, File: path}
 			sp.Contracts = append(sp.Contracts, cur)
 		default:
 			if cur == nil {
